@@ -2,6 +2,9 @@
    Model/Serde.v) against what the implementation did on the same (type, value). *)
 From TeraV Require Import Model.Value Model.Format Model.Serde.
 
+(* run-length notation the harness writes long strings / byte strings in: n copies of c *)
+Definition nrep (c n : N) : list N := repeat c (N.to_nat n).
+
 Section All2.
   Context {A B : Type} (f : A -> B -> bool).
   Fixpoint all2 (la : list A) (lb : list B) : bool :=
